@@ -664,7 +664,7 @@ func runC09(e *Env) {
 		nonsense("zero-duration/text", "1"+v, convD, nil)
 		nonsense("zero-duration/text", "C[1] R"+v, convS, nil)
 	}
-	for _, v := range []string{"bpm=0", "bpm=abc", "bpm=-1", "vel=xx", "vel=F", "mtr=0/4", "mtr=4/0", "mtr=x", "mtr=/", "key=H", "key=c", "key=Cmaj", "key=xxG#yy", "key=Fb", "key=E#m", "key=Abm", "key=XAm", "key=xC", "key=Key of G", "key=in F", "key=E#Gb", "key=Amx", "key=G major", "key=Am7", "key=CC", "key=mC"} {
+	for _, v := range []string{"bpm=0", "bpm=abc", "bpm=-1", "vel=xx", "vel=loud", "mtr=0/4", "mtr=4/0", "mtr=x", "mtr=/", "key=H", "key=c", "key=Cmaj", "key=xxG#yy", "key=Fb", "key=E#m", "key=Abm", "key=XAm", "key=xC", "key=Key of G", "key=in F", "key=E#Gb", "key=Amx", "key=G major", "key=Am7", "key=CC", "key=mC"} {
 		label := strings.SplitN(v, "=", 2)[0] + "/text-metadata"
 		if strings.HasPrefix(v, "key=") {
 			label = "key-without-scale/text-metadata"
